@@ -47,7 +47,8 @@ var verifC06Ctx = [...]string{
 const verifC06Header = "global (boom, two, callback, gopanic)\nparam v\n"
 
 // the observation script of C07 (also the follow-up script of C06)
-const verifObsScript = `param x
+const verifObsScript = `global obscb
+param x
 s := 0
 for i := 0; i < 3; i++ { s += i * x }
 m := {a: [1, 2], n: x}
@@ -55,7 +56,23 @@ f := func(y) { return y + s }
 try { throw "z" } catch e { s += len(e.Message) } finally { m.fin = true }
 if x == 7 { throw "uncaught at main level" }
 g := func(y) { if y == 8 { return 1 / (y - 8) }; return y }
-return [s, m, f(1), g(x), import("obsmod").v]`
+return [s, m, f(1), g(x), import("obsmod").v, obscb(func() { return s + 1 }), obscb(f, 2)]`
+
+// verifObsGlobals: the observation script calls script functions through a
+// pooled Invoker, so a child VM left in a bad state in the process-wide pool
+// by an earlier run is observed too.
+func verifObsGlobals() Map {
+	return Map{"obscb": &Function{Name: "obscb", ValueEx: func(c Call) (Object, error) {
+		inv := NewInvoker(c.VM(), c.Get(0))
+		inv.Acquire()
+		defer inv.Release()
+		var args []Object
+		for i := 1; i < c.Len(); i++ {
+			args = append(args, c.Get(i))
+		}
+		return inv.Invoke(args...)
+	}}}
+}
 
 func verifObsModules() *ModuleMap {
 	mm := NewModuleMap()
@@ -103,6 +120,16 @@ func verifC06Globals(vm **VM) Map {
 	return g
 }
 
+// verifObsReference runs the observation script on a fresh VM. It is called
+// before the script under test has run, while the process-wide VM pool is
+// still in its initial state.
+func verifObsReference(obs *Bytecode, x Object) (v Object, err error) {
+	verifrt.NoPanic("reference-run-no-panic", func() {
+		v, err = NewVM(obs).SetRecover(true).Run(verifObsGlobals(), x)
+	})
+	return
+}
+
 func verifIsValueOrError(v Object, err error) bool {
 	return (err == nil) != (v == nil)
 }
@@ -138,24 +165,24 @@ func VerifC06Fail() {
 	var val Object
 	var rerr error
 	verifrt.Freeze(bc, obs)
+	v2, e2 := verifObsReference(obs, x)
 	verifrt.NoPanic("no-panic-escapes-run", func() { val, rerr = vm.Run(g, Int(v)) })
 	verifrt.AssertMsg(verifIsValueOrError(val, rerr), "value-or-error", src)
 	// the VM can run further scripts correctly afterwards (C06) and their
 	// outcome does not depend on what ran before (C07)
-	var v1, v2 Object
-	var e1, e2 error
+	var v1 Object
+	var e1 error
 	verifrt.NoPanic("follow-up-no-panic", func() {
 		switch verifrt.Param("reuse") {
 		case 0:
-			v1, e1 = vm.SetBytecode(obs).Run(nil, x)
+			v1, e1 = vm.SetBytecode(obs).Run(verifObsGlobals(), x)
 		case 1:
-			v1, e1 = vm.Clear().SetBytecode(obs).Run(nil, x)
+			v1, e1 = vm.Clear().SetBytecode(obs).Run(verifObsGlobals(), x)
 		default:
 			// the failing script again, then the observation script
 			_, _ = vm.Run(g, Int(v))
-			v1, e1 = vm.Clear().SetBytecode(obs).Run(nil, x)
+			v1, e1 = vm.Clear().SetBytecode(obs).Run(verifObsGlobals(), x)
 		}
-		v2, e2 = NewVM(obs).SetRecover(true).Run(nil, x)
 	})
 	verifrt.Unfreeze()
 	verifrt.AssertMsg(verifSameError(e1, e2) && (e1 != nil || verifSameObject(v1, v2)), "history-independent", src)
@@ -210,14 +237,14 @@ func VerifC06Edge() {
 	verifrt.Assume(z >= 0 && z <= 1)
 	var val Object
 	var rerr error
+	x := Int(verifrt.Int64("x"))
+	v2, e2 := verifObsReference(obs, x)
 	verifrt.NoPanic("no-panic-escapes-run", func() { val, rerr = vm.Run(g, Int(n), Int(z)) })
 	verifrt.Assert(verifIsValueOrError(val, rerr), "value-or-error")
-	x := Int(verifrt.Int64("x"))
-	var v1, v2 Object
-	var e1, e2 error
+	var v1 Object
+	var e1 error
 	verifrt.NoPanic("follow-up-no-panic", func() {
-		v1, e1 = vm.Clear().SetBytecode(obs).Run(nil, x)
-		v2, e2 = NewVM(obs).SetRecover(true).Run(nil, x)
+		v1, e1 = vm.Clear().SetBytecode(obs).Run(verifObsGlobals(), x)
 	})
 	verifrt.Assert(verifSameError(e1, e2) && (e1 != nil || verifSameObject(v1, v2)), "history-independent")
 	verifrt.Reached("end")
@@ -241,6 +268,10 @@ var verifC07First = [...]string{
 	"f := func() { abort(); for i := 0; i < 100; i++ { } ; return 1 }\ntry { return f() } catch e { return \"caught\" } finally { out(\"fin\") }",
 	// error thrown from a finally block with a pending return
 	"f := func() { try { return 1 } finally { throw \"fin\" } }\ntry { f() } catch e { }\nreturn f()",
+	// abort while a pooled child VM runs a script function inside a Go callback
+	"f := func() { abort(); for i := 0; i < 100; i++ { } ; return 1 }\nreturn callback(f)",
+	// error escaping from a pooled child VM's nested call, then a second pooled call
+	"var f\nf = func(n) { if n == 0 { throw \"deep\" }; return f(n - 1) }\ntry { callback(func() { return f(2) }) } catch e { out(e.Message) }\nreturn callback(func() { return 7 })",
 }
 
 // VerifC07History: first script "first" (one of the termination kinds) runs
@@ -268,6 +299,7 @@ func VerifC07History() {
 	vm = NewVM(bc).SetRecover(true)
 	x := Int(verifrt.Int64("x"))
 	verifrt.Freeze(bc, obs)
+	v2, e2 := verifObsReference(obs, x)
 	var r1, r2 Object
 	var re1, re2 error
 	verifrt.NoPanic("first-script-no-panic", func() {
@@ -277,16 +309,15 @@ func VerifC07History() {
 			verifrt.Assert(verifSameError(re1, re2) && (re1 != nil || verifSameObject(r1, r2)), "same-bytecode-same-outcome-on-rerun")
 		}
 	})
-	var v1, v2 Object
-	var e1, e2 error
+	var v1 Object
+	var e1 error
 	terminated := true
 	verifrt.NoPanic("observation-no-panic", func() {
 		if verifrt.Param("clear") == 1 {
 			vm.Clear()
 		}
-		v2, e2 = NewVM(obs).SetRecover(true).Run(nil, x)
 		// a fresh VM needs about 150k interpreted steps for this script
-		terminated = verifrt.Bounded(5_000_000, func() { v1, e1 = vm.SetBytecode(obs).Run(nil, x) }, vm.Abort)
+		terminated = verifrt.Bounded(5_000_000, func() { v1, e1 = vm.SetBytecode(obs).Run(verifObsGlobals(), x) }, vm.Abort)
 	})
 	verifrt.AssertMsg(terminated, "history-independent-termination", src)
 	if !terminated {
